@@ -196,13 +196,14 @@ class Operation(ElementBase):
 
     @property
     def parts(self):
-        # an edge object that is used for several side edges must only be transformed once
-        side_edges = []
-        for edge in self.side_edges:
-            if not any(edge is other for other in side_edges):
-                side_edges.append(edge)
+        # an object that is used in several places of this operation (for instance the same
+        # edge data on the bottom and the top face, or on several side edges) must only be transformed once
+        parts = []
+        for part in [*self.bottom_face.parts, *self.top_face.parts, *self.side_edges]:
+            if not any(part is other for other in parts):
+                parts.append(part)
 
-        return [self.bottom_face, self.top_face, *side_edges]
+        return parts
 
     @property
     def points(self) -> List[Point]:
@@ -322,8 +323,13 @@ class Operation(ElementBase):
         self.top_face, self.bottom_face = self.bottom_face, self.top_face
 
         # side edges now start at what used to be their end
-        # (self.parts lists each edge object once)
-        for edge in self.parts[2:]:
+        # (an object used for several side edges is reversed once)
+        side_edges = []
+        for edge in self.side_edges:
+            if not any(edge is other for other in side_edges):
+                side_edges.append(edge)
+
+        for edge in side_edges:
             edge.reverse()
 
         return self
